@@ -63,5 +63,30 @@ def run(ctx):
             elif (be, kind) == cfgs[0]:
                 for s in table.first_rows(tf, 30)[-2:]:
                     ctx.sample(s)
+    # 3. first use: the very first thing a process does with the library is eight threads creating their first Lagrange polynomial at the same moment
+    #    (SharedInit.tla: exactly one process-lifetime processor is built, nobody sees it half built); Trace_Threads!PShared accepts one ProcShared per process
+    for c in ("SharedInit_once.cfg", "SharedInit_once_plain.cfg"):
+        r = tlc.run_tlc("SharedInit", cfg=c, workdir=ctx.dir, workers=2)
+        if not tlc.expect_ok(ctx, r, c):
+            raise CheckBroken("SharedInit (%s) violates %s" % (c, r.violated))
+    for c, inv in (("SharedInit_none.cfg", "OneShared"), ("SharedInit_early.cfg", "NoHalfBuilt")):
+        rm = tlc.run_tlc("SharedInit", cfg=c, workdir=ctx.dir, workers=2)
+        if rm.violated != inv:
+            raise CheckBroken("design mutant %s not rejected by %s: %r" % (c, inv, rm))
+        ctx.add("spec_mutants_rejected", 1)
+    for be, kind in cfgs:
+        exe = build.harness("h_threads", be, kind, extra=["-I", os.path.join(os.environ.get("VERIF_REPO", "/repo"), "src", "libtfhe")])
+        for rep in range(6 if thorough else 3):          # the first use happens once per process: several processes
+            tf = os.path.join(ctx.dir, "firstuse-%s-%s-%d.ndjson" % (be, kind, rep))
+            with open(tf, "w") as f:
+                rc, _, err = sh([exe, "--probe", "2", "--seed", str(ctx.seed + rep)], stdout=f, timeout=600)
+            if rc != 0:
+                ctx.violation("h_threads (concurrent first use) died on %s/%s rc=%s %s" % (be, kind, rc, err[-300:]), key="h_threads first-use crash %s %s" % (be, kind), files=[tf])
+                break
+            bad = validate_threads(ctx, tf, "C06 first use %s %s" % (be, kind))
+            if bad:
+                ctx.violation("concurrent first use of the library on %s/%s is not a behaviour of Threads/SharedInit (%s): accepted %d of %d events, rejected event %s" %
+                              (be, kind, bad["violated"] or "no matching action", bad["accepted_prefix"], bad["of"], bad["event"][:300]), detail=bad, files=[tf])
+                break
     ctx.assume("'forall interleavings' is exhaustive for the model; for the code, schedules are sampled but ownership and lock discipline are judged by identity (which thread constructed the processor a thread uses; who holds the planner mutex), not by timing")
     ctx.assume("races inside uninstrumented assembly that leave identities and results intact are invisible")
